@@ -133,7 +133,11 @@ def run(ctx):
         ctx.sample({"kind": "regrid vector", **{k: vectors[0][k] for k in ("F", "D", "E", "tf", "td", "m0", "rot")}, "out": vectors[0]["out"]})
     # ---- any real rotation angle: coordinates kept, Hs kept, non-negative
     rng = ctx.rng
-    some = [v for v in vectors if v["rot"] != -1 and len(set(x % 360 for x in v["D"])) == len(v["D"])]
+    def full_circle(D):
+        s_ = sorted(set(x % 360 for x in D))
+        return len(s_) == len(D) and len(s_) >= 2 and len(set(b - a for a, b in zip(s_, s_[1:]))) == 1 and s_[-1] - s_[0] + (s_[1] - s_[0]) == 360
+    # on a partial-circle grid a rotation can move all the energy out of the covered sector: Hs cannot be kept there
+    some = [v for v in vectors if v["rot"] != -1 and full_circle(v["D"])]
     rng.shuffle(some)
     for v in some[: (60 if ctx.quick else 600)]:
         da = L.build(v["F"], v["D"], v["E"])
